@@ -312,44 +312,171 @@ func unwrapConv(e ast.Expr) ast.Expr {
 	}
 }
 
+// unreadable collects, per table, the statements that are outside the idioms the
+// extractors understand. A table with an entry here is emitted with
+// <name>_readable = false: the Coq side then does not require it to equal the
+// specification's table, and the tie for that function rests on the
+// correspondence check alone (check.sh runs it at the thorough scale).
+var unreadable = map[string][]string{}
+var curTable string
+
+func (p *pkgInfo) giveUp(n ast.Node, why string) {
+	pos := p.fset.Position(n.Pos())
+	unreadable[curTable] = append(unreadable[curTable], fmt.Sprintf("%s:%d %s", filepath.Base(pos.Filename), pos.Line, why))
+}
+
+// mentionsBytes: does the expression read the input buffer (slice / index
+// expression or a binary.LittleEndian call)?
+func mentionsBytes(e ast.Expr) bool {
+	found := false
+	ast.Inspect(e, func(n ast.Node) bool {
+		switch x := n.(type) {
+		case *ast.SliceExpr:
+			found = true
+		case *ast.CallExpr:
+			if _, _, ok := binaryWidth(x.Fun); ok {
+				found = true
+			}
+		}
+		return !found
+	})
+	return found
+}
+
+// dynamicSlice: data[a:b] (possibly wrapped in a one-argument call) whose bounds
+// are constants or plain local variables.
+func (p *pkgInfo) dynamicSlice(e ast.Expr) bool {
+	e = unwrapConv(e)
+	if call, ok := e.(*ast.CallExpr); ok && len(call.Args) == 1 {
+		if _, isId := call.Fun.(*ast.Ident); isId {
+			e = call.Args[0]
+		}
+	}
+	se, ok := e.(*ast.SliceExpr)
+	if !ok {
+		return false
+	}
+	for _, b := range []ast.Expr{se.Low, se.High} {
+		if b == nil {
+			continue
+		}
+		if _, isConst := p.constVal(b); isConst {
+			continue
+		}
+		if _, isId := b.(*ast.Ident); isId {
+			continue
+		}
+		return false
+	}
+	return true
+}
+
+// byteSource recognises data[A:B], clone(data[A:B]) and
+// uintN(binary.LittleEndian.UintM(data[A:B])) with constant bounds.
+func (p *pkgInfo) byteSource(e ast.Expr) (lo, hi, kind string, ok bool) {
+	rhs := unwrapConv(e)
+	if call, isCall := rhs.(*ast.CallExpr); isCall && len(call.Args) == 1 {
+		if id, isId := call.Fun.(*ast.Ident); isId && id.Name != "len" && id.Name != "string" {
+			// a one-argument package function around a slice (clone and the like)
+			if lo, hi, ok := p.sliceBounds(call.Args[0]); ok {
+				if fd := findFunc(p, id.Name); fd != nil && len(fieldTypes(fd.Type.Params)) == 1 && isByteSlice(fieldTypes(fd.Type.Params)[0]) {
+					return lo, hi, "bytes", true
+				}
+			}
+		}
+	}
+	if lo, hi, ok := p.sliceBounds(rhs); ok {
+		return lo, hi, "bytes", true
+	}
+	if call, isCall := rhs.(*ast.CallExpr); isCall {
+		if put, w, ok := binaryWidth(call.Fun); ok && !put && len(call.Args) == 1 {
+			if lo, hi, ok := p.sliceBounds(call.Args[0]); ok {
+				return lo, hi, "le" + w, true
+			}
+		}
+	}
+	return "", "", "", false
+}
+
 // parseTable extracts `x.F = data[A:B]` and `x.F = uintN(binary.LittleEndian.UintM(data[A:B]))`
-// assignments and the RTMR loop from a *ToProto function.
+// assignments (also through a local, and as members of a composite literal) and
+// the RTMR loop from a *ToProto function.
 func (p *pkgInfo) parseTable(fn *ast.FuncDecl) []fieldRow {
 	var rows []fieldRow
+	type src struct{ lo, hi, kind string }
+	locals := map[string]src{}
+	field := func(name string, val ast.Expr, at ast.Node) {
+		if id, ok := unwrapConv(val).(*ast.Ident); ok {
+			if b, ok := locals[id.Name]; ok {
+				rows = append(rows, fieldRow{name, b.lo, b.hi, b.kind})
+			}
+			return
+		}
+		if lo, hi, kind, ok := p.byteSource(val); ok {
+			rows = append(rows, fieldRow{name, lo, hi, kind})
+			return
+		}
+		if p.dynamicSlice(val) {
+			return // a variable-length field: not part of the fixed layout
+		}
+		if mentionsBytes(val) {
+			p.giveUp(at, "field "+name+" is read from the input in a way the translator does not know: "+exprString(p.fset, val))
+		}
+	}
 	ast.Inspect(fn.Body, func(n ast.Node) bool {
 		switch s := n.(type) {
 		case *ast.AssignStmt:
 			if len(s.Lhs) != 1 || len(s.Rhs) != 1 {
 				return true
 			}
-			lhs, ok := s.Lhs[0].(*ast.SelectorExpr)
-			if !ok {
-				return true
-			}
-			rhs := unwrapConv(s.Rhs[0])
-			if lo, hi, ok := p.sliceBounds(rhs); ok {
-				rows = append(rows, fieldRow{lhs.Sel.Name, lo, hi, "bytes"})
-				return true
-			}
-			if call, ok := rhs.(*ast.CallExpr); ok {
-				if put, w, ok := binaryWidth(call.Fun); ok && !put && len(call.Args) == 1 {
-					if lo, hi, ok := p.sliceBounds(call.Args[0]); ok {
-						rows = append(rows, fieldRow{lhs.Sel.Name, lo, hi, "le" + w})
+			switch lhs := s.Lhs[0].(type) {
+			case *ast.SelectorExpr:
+				field(lhs.Sel.Name, s.Rhs[0], s)
+			case *ast.Ident:
+				if lo, hi, kind, ok := p.byteSource(s.Rhs[0]); ok {
+					if _, isSlice := unwrapConv(s.Rhs[0]).(*ast.SliceExpr); !isSlice || true {
+						locals[lhs.Name] = src{lo, hi, kind}
 					}
 				}
 			}
+		case *ast.KeyValueExpr:
+			if k, ok := s.Key.(*ast.Ident); ok {
+				field(k.Name, s.Value, s)
+			}
+		case *ast.RangeStmt:
+			if mentionsBytes2(s.Body) {
+				p.giveUp(s, "range loop over the input")
+			}
+			return false
 		case *ast.ForStmt:
 			// for i := 0; i < C; i++ { ... data[start:end] ... }  (the RTMR loop)
-			if be, ok := s.Cond.(*ast.BinaryExpr); ok {
-				if cnt, ok := p.constVal(be.Y); ok {
-					rows = append(rows, fieldRow{"#loop", cnt, p.loopStride(s), p.loopStart(fn, s)})
+			ok := false
+			if be, isBin := s.Cond.(*ast.BinaryExpr); isBin {
+				if cnt, isConst := p.constVal(be.Y); isConst {
+					stride, start := p.loopStride(s), p.loopStart(fn, s)
+					rows = append(rows, fieldRow{"#loop", cnt, stride, start})
+					ok = stride != "?" && start != "?"
 				}
+			}
+			if !ok {
+				p.giveUp(s, "loop outside the running-offset idiom")
 			}
 			return false
 		}
 		return true
 	})
 	return rows
+}
+
+func mentionsBytes2(b *ast.BlockStmt) bool {
+	found := false
+	ast.Inspect(b, func(n ast.Node) bool {
+		if e, ok := n.(ast.Expr); ok && !found && mentionsBytes(e) {
+			found = true
+		}
+		return !found
+	})
+	return found
 }
 
 // loopStride finds `x += C` in a loop body.
@@ -397,13 +524,27 @@ func (p *pkgInfo) loopStart(fn *ast.FuncDecl, loop *ast.ForStmt) string {
 // and the make size from a *ToAbiBytes function.
 func (p *pkgInfo) serTable(fn *ast.FuncDecl) (rows []fieldRow, size string) {
 	size = "?"
+	defer func() {
+		if size == "?" {
+			p.giveUp(fn, "size of the output buffer not found")
+		}
+	}()
 	ast.Inspect(fn.Body, func(n ast.Node) bool {
 		switch s := n.(type) {
+		case *ast.RangeStmt:
+			p.giveUp(s, "range loop in a serialiser")
+			return false
 		case *ast.ForStmt:
-			if be, ok := s.Cond.(*ast.BinaryExpr); ok {
-				if cnt, ok := p.constVal(be.Y); ok {
-					rows = append(rows, fieldRow{"#loop", cnt, p.loopStride(s), p.loopStart(fn, s)})
+			ok := false
+			if be, isBin := s.Cond.(*ast.BinaryExpr); isBin {
+				if cnt, isConst := p.constVal(be.Y); isConst {
+					stride, start := p.loopStride(s), p.loopStart(fn, s)
+					rows = append(rows, fieldRow{"#loop", cnt, stride, start})
+					ok = stride != "?" && start != "?"
 				}
+			}
+			if !ok {
+				p.giveUp(s, "loop outside the running-offset idiom")
 			}
 			return false
 		case *ast.CallExpr:
@@ -416,12 +557,16 @@ func (p *pkgInfo) serTable(fn *ast.FuncDecl) (rows []fieldRow, size string) {
 				if id.Name == "copy" && len(s.Args) == 2 {
 					if lo, hi, ok := p.sliceBounds(s.Args[0]); ok {
 						rows = append(rows, fieldRow{stripGet(lastSel(s.Args[1])), lo, hi, "bytes"})
+					} else {
+						p.giveUp(s, "copy to a destination the translator cannot place: "+exprString(p.fset, s.Args[0]))
 					}
 				}
 			}
 			if put, w, ok := binaryWidth(s.Fun); ok && put && len(s.Args) == 2 {
 				if lo, hi, ok := p.sliceBounds(s.Args[0]); ok {
 					rows = append(rows, fieldRow{stripGet(lastSel(unwrapConv(s.Args[1]))), lo, hi, "le" + w})
+				} else {
+					p.giveUp(s, "PutUint to a destination the translator cannot place: "+exprString(p.fset, s.Args[0]))
 				}
 			}
 		}
@@ -441,14 +586,23 @@ func (p *pkgInfo) checkTable(fn *ast.FuncDecl) []checkRow {
 	walk = func(list []ast.Stmt) {
 		for _, st := range list {
 			switch s := st.(type) {
+			case *ast.ReturnStmt, *ast.EmptyStmt:
 			case *ast.ForStmt:
-				if be, ok := s.Cond.(*ast.BinaryExpr); ok {
-					if cnt, ok := p.constVal(be.Y); ok {
+				ok := false
+				if be, isBin := s.Cond.(*ast.BinaryExpr); isBin {
+					if cnt, isConst := p.constVal(be.Y); isConst {
 						rows = append(rows, checkRow{"#loop", "count", cnt})
+						ok = true
 					}
+				}
+				if !ok {
+					p.giveUp(s, "loop with a bound the translator cannot evaluate")
 				}
 				walk(s.Body.List)
 			case *ast.IfStmt:
+				if s.Else != nil {
+					p.giveUp(s, "guard with an else branch")
+				}
 				if s.Init != nil {
 					if as, ok := s.Init.(*ast.AssignStmt); ok && len(as.Rhs) == 1 {
 						if call, ok := as.Rhs[0].(*ast.CallExpr); ok {
@@ -460,13 +614,27 @@ func (p *pkgInfo) checkTable(fn *ast.FuncDecl) []checkRow {
 							continue
 						}
 					}
-				}
-				be, ok := s.Cond.(*ast.BinaryExpr)
-				if !ok {
-					rows = append(rows, checkRow{"?", "?", exprString(p.fset, s.Cond)})
+					p.giveUp(s, "guard with an initialiser the translator does not know")
 					continue
 				}
-				rows = append(rows, p.checkCond(be))
+				be, ok := p.asComparison(s.Cond)
+				if !ok {
+					rows = append(rows, checkRow{"?", "?", exprString(p.fset, s.Cond)})
+					p.giveUp(s, "guard condition outside the known forms: "+exprString(p.fset, s.Cond))
+					continue
+				}
+				switch be.Op {
+				case token.EQL, token.NEQ, token.LSS, token.LEQ, token.GTR, token.GEQ:
+				default:
+					p.giveUp(s, "compound guard condition: "+exprString(p.fset, s.Cond))
+				}
+				row := p.checkCond(be)
+				if strings.HasPrefix(row.val, "?") {
+					p.giveUp(s, "guard compares with an expression the translator cannot evaluate: "+exprString(p.fset, s.Cond))
+				}
+				rows = append(rows, row)
+			default:
+				p.giveUp(st, "statement outside the guard idiom")
 			}
 		}
 	}
@@ -474,8 +642,75 @@ func (p *pkgInfo) checkTable(fn *ast.FuncDecl) []checkRow {
 	return rows
 }
 
+// asComparison reads a guard condition as one comparison: a binary expression,
+// or (possibly negated) a call of a one-parameter predicate of this package whose
+// body is `return <param> <op> <constant>`, which is inlined.
+func (p *pkgInfo) asComparison(e ast.Expr) (*ast.BinaryExpr, bool) {
+	neg := false
+	for {
+		switch x := e.(type) {
+		case *ast.ParenExpr:
+			e = x.X
+			continue
+		case *ast.UnaryExpr:
+			if x.Op == token.NOT {
+				neg = !neg
+				e = x.X
+				continue
+			}
+		}
+		break
+	}
+	be, ok := e.(*ast.BinaryExpr)
+	if !ok {
+		call, isCall := e.(*ast.CallExpr)
+		if !isCall || len(call.Args) != 1 {
+			return nil, false
+		}
+		id, isId := call.Fun.(*ast.Ident)
+		if !isId {
+			return nil, false
+		}
+		fd := findFunc(p, id.Name)
+		if fd == nil || fd.Body == nil || len(fd.Body.List) != 1 || len(fieldTypes(fd.Type.Params)) != 1 || len(fd.Type.Params.List[0].Names) != 1 {
+			return nil, false
+		}
+		ret, isRet := fd.Body.List[0].(*ast.ReturnStmt)
+		if !isRet || len(ret.Results) != 1 {
+			return nil, false
+		}
+		inner, isBin := ret.Results[0].(*ast.BinaryExpr)
+		if !isBin || !isIdent(inner.X, fd.Type.Params.List[0].Names[0].Name) {
+			return nil, false
+		}
+		if _, isConst := p.constVal(inner.Y); !isConst {
+			return nil, false
+		}
+		be = &ast.BinaryExpr{X: call.Args[0], Op: inner.Op, Y: inner.Y, OpPos: call.Pos()}
+	}
+	if neg {
+		flip := map[token.Token]token.Token{token.EQL: token.NEQ, token.NEQ: token.EQL, token.LSS: token.GEQ, token.GEQ: token.LSS, token.GTR: token.LEQ, token.LEQ: token.GTR}
+		op, known := flip[be.Op]
+		if !known {
+			return nil, false
+		}
+		be = &ast.BinaryExpr{X: be.X, Op: op, Y: be.Y, OpPos: be.OpPos}
+	}
+	return be, true
+}
+
 func (p *pkgInfo) checkCond(be *ast.BinaryExpr) checkRow {
 	op := be.Op.String()
+	// x > C is written x >= C+1 (one spelling per guard)
+	if be.Op == token.GTR {
+		if v, ok := p.constVal(be.Y); ok {
+			if n, err := strconv.ParseUint(v, 10, 63); err == nil {
+				r := p.checkCond(&ast.BinaryExpr{X: be.X, Op: token.GEQ, Y: be.Y})
+				r.val = strconv.FormatUint(n+1, 10)
+				return r
+			}
+		}
+	}
 	if id, ok := be.Y.(*ast.Ident); ok && id.Name == "nil" {
 		return checkRow{lastSel(be.X), op, "nil"}
 	}
@@ -534,6 +769,14 @@ func sortRows(rows []fieldRow) []fieldRow {
 		out[i] = rows[j]
 	}
 	return out
+}
+
+func emitReadable(w *bytes.Buffer, name string) {
+	v := "true"
+	if len(unreadable[name]) > 0 {
+		v = "false"
+	}
+	fmt.Fprintf(w, "Definition %s_readable : bool := %s.\n", name, v)
 }
 
 func emitRows(w *bytes.Buffer, name string, rows []fieldRow) {
@@ -731,11 +974,17 @@ func main() {
 		{"body", "TDQuoteBody", "tdQuoteBodyToProto", "TdQuoteBodyToAbiBytes", "checkTDQuoteBody"},
 		{"report", "EnclaveReport", "enclaveReportToProto", "EnclaveReportToAbiBytes", "checkQeReport"},
 	} {
-		emitRows(&w, t.name+"_parse_table", abi.parseTable(roleFunc(abi, t.parse, "parse", t.msg)))
+		curTable = t.name + "_parse_table"
+		emitRows(&w, curTable, abi.parseTable(roleFunc(abi, t.parse, "parse", t.msg)))
+		emitReadable(&w, curTable)
+		curTable = t.name + "_ser_table"
 		rows, size := abi.serTable(roleFunc(abi, t.ser, "ser", t.msg))
-		emitRows(&w, t.name+"_ser_table", rows)
+		emitRows(&w, curTable, rows)
 		fmt.Fprintf(&w, "Definition %s_ser_size : string := %s.\n", t.name, coqString(size))
-		emitChecks(&w, t.name+"_check_table", abi.checkTable(roleFunc(abi, t.check, "check", t.msg)))
+		emitReadable(&w, curTable)
+		curTable = t.name + "_check_table"
+		emitChecks(&w, curTable, abi.checkTable(roleFunc(abi, t.check, "check", t.msg)))
+		emitReadable(&w, curTable)
 		w.WriteString("\n")
 	}
 	for _, t := range []struct{ name, msg, parse, check string }{
@@ -746,11 +995,28 @@ func main() {
 		{"pck", "PCKCertificateChainData", "pckCertificateChainToProto", "checkPCKCertificateChain"},
 		{"quote", "QuoteV4", "quoteToProtoV4", "CheckQuoteV4"},
 	} {
-		emitRows(&w, t.name+"_parse_table", abi.parseTable(roleFunc(abi, t.parse, "parse", t.msg)))
-		emitChecks(&w, t.name+"_check_table", abi.checkTable(roleFunc(abi, t.check, "check", t.msg)))
+		curTable = t.name + "_parse_table"
+		emitRows(&w, curTable, abi.parseTable(roleFunc(abi, t.parse, "parse", t.msg)))
+		emitReadable(&w, curTable)
+		curTable = t.name + "_check_table"
+		emitChecks(&w, curTable, abi.checkTable(roleFunc(abi, t.check, "check", t.msg)))
+		emitReadable(&w, curTable)
 		w.WriteString("\n")
 	}
 	must(writeIfChanged(filepath.Join(*out, "AbiTables.v"), w.Bytes()))
+	// what could not be read, for check.sh and the evidence
+	var ur bytes.Buffer
+	var names []string
+	for n := range unreadable {
+		names = append(names, n)
+	}
+	sort.Strings(names)
+	for _, n := range names {
+		for _, why := range unreadable[n] {
+			fmt.Fprintf(&ur, "%s\t%s\n", n, why)
+		}
+	}
+	must(writeIfChanged(filepath.Join(*out, "unreadable.txt"), ur.Bytes()))
 
 	// ---- write sites -------------------------------------------------------
 	var ws bytes.Buffer
